@@ -78,24 +78,28 @@ Arguments stamp_of {K}. Arguments drawn_of {K}. Arguments brel_of {K}. Arguments
 Arguments assemble {K}. Arguments sumK {K}. Arguments kcl {K}. Arguments crel {K}. Arguments phys {K}.
 Arguments wf_net {K}. Arguments entry {K}. Arguments netlist K : clear implicits.
 
-(* ---- correspondence helpers over Qc ------------------------------------- *)
+(* ---- correspondence helpers, generic in the field (instantiated at Qc for the
+   dc / Laplace kinds and at the Gaussian rationals Q(i) for the ac kinds) ----- *)
+Section Corr.
+Variable K : fld.
+Variable keqb : K -> K -> bool.
 Record raw := Raw {
   r_cl : cname; r_info : cinfo; r_kind : akind; r_typ : ctype;
   r_n0 : Z; r_n1 : Z; r_n2 : Z; r_n3 : Z; r_c0 : Z; r_c1 : Z;
   r_L1 : nat; r_L2 : nat;
   r_ic : bool; r_cv : bool; r_a1 : bool; r_ts : bool;
-  r_par : pname -> Qc }.
+  r_par : pname -> K }.
 Definition zidx (k : bkey) (us : list bkey) : Z :=
   match index_of k us with Some n => Z.of_nat n | None => 0 end.
-Definition mkctx (us : list bkey) (e : raw) : sctx QcF :=
-  SCtx QcF (r_kind e) (r_typ e) (r_n0 e) (r_n1 e) (r_n2 e) (r_n3 e) (r_c0 e) (r_c1 e)
+Definition mkctx (us : list bkey) (e : raw) : sctx K :=
+  SCtx K (r_kind e) (r_typ e) (r_n0 e) (r_n1 e) (r_n2 e) (r_n3 e) (r_c0 e) (r_c1 e)
     (zidx (ci_id (r_info e), false) us) (zidx (ci_id (r_info e), true) us)
     (zidx (ci_ctrl (r_info e), false) us) (zidx (r_L1 e, false) us) (zidx (r_L2 e, false) us)
     (r_ic e) (r_cv e) (r_a1 e) (r_ts e) (r_par e).
 Definition model_unknowns (es : list raw) : list bkey := unknowns (map r_info es).
-Definition model_net (es : list raw) : netlist QcF :=
+Definition model_net (es : list raw) : netlist K :=
   let us := model_unknowns es in map (fun e => (r_cl e, mkctx us e)) es.
-Definition model_T (es : list raw) : option (list (upd QcF)) :=
+Definition model_T (es : list raw) : option (list (upd K)) :=
   match assemble (model_net es) with SOk T => Some T | SErr => None end.
 Fixpoint bkeys_eqb (a b : list bkey) : bool :=
   match a, b with
@@ -103,24 +107,25 @@ Fixpoint bkeys_eqb (a b : list bkey) : bool :=
   | x :: a', y :: b' => bkey_eqb x y && bkeys_eqb a' b'
   | _, _ => false end.
 Definition check_unknowns (es : list raw) (expected : list bkey) : bool := bkeys_eqb (model_unknowns es) expected.
-Definition check_entries (es : list raw) (l : list (mname * Z * Z * Qc)) : bool :=
+Definition check_entries (es : list raw) (l : list (mname * Z * Z * K)) : bool :=
   match model_T es with
   | None => false
-  | Some T => forallb (fun e => match e with (mm, r, c, x) => qc_eqb (entry T mm r c) x end) l
+  | Some T => forallb (fun e => match e with (mm, r, c, x) => keqb (entry T mm r c) x end) l
   end.
-Definition vec_of (x : list Qc) (off : nat) : Z -> Qc := fun i => nth (off + Z.to_nat i) x (0%Qc : QcF).
+Definition vec_of (x : list K) (off : nat) : Z -> K := fun i => nth (off + Z.to_nat i) x (@f0 K).
 Fixpoint upto (n : nat) : list Z := match n with O => [] | S n' => upto n' ++ [Z.of_nat n'] end.
 (* the solution vector x (node voltages then branch currents) satisfies the model system *)
-Definition check_solution (es : list raw) (nn mm : nat) (x : list Qc) : bool :=
+Definition check_solution (es : list raw) (nn mm : nat) (x : list K) : bool :=
   match model_T es with
   | None => false
   | Some T =>
-      forallb (fun r => qc_eqb (node_res T (vec_of x 0) (vec_of x nn) r) (0%Qc : QcF)) (upto nn) &&
-      forallb (fun q => qc_eqb (br_res T (vec_of x 0) (vec_of x nn) q) (0%Qc : QcF)) (upto mm)
+      forallb (fun r => keqb (node_res T (vec_of x 0) (vec_of x nn) r) (@f0 K)) (upto nn) &&
+      forallb (fun q => keqb (br_res T (vec_of x 0) (vec_of x nn) q) (@f0 K)) (upto mm)
   end.
 (* reported current of one element *)
-Definition check_report (es : list raw) (i : nat) (cv : conv) (rk : rkind) (V0 Zr : Qc) (nn : nat) (x : list Qc) (expected : Qc) : bool :=
+Definition check_report (es : list raw) (i : nat) (cv : conv) (rk : rkind) (V0 Zr : K) (nn : nat) (x : list K) (expected : K) : bool :=
   match nth_error es i with
   | None => false
-  | Some e => qc_eqb (report cv rk (mkctx (model_unknowns es) e) V0 Zr (vec_of x 0) (vec_of x nn)) expected
+  | Some e => keqb (report cv rk (mkctx (model_unknowns es) e) V0 Zr (vec_of x 0) (vec_of x nn)) expected
   end.
+End Corr.
